@@ -70,7 +70,8 @@ Print Assumptions C05_copy_construct.
    data (properties, data, bounds, geometry, interior ring, measure, external variables) and
    for data. *)
 Theorem C05_sym_exact_construct :
-  forall o x y, exact o -> wf_cons x -> wf_cons y -> cons_eq New o x y = cons_eq New o y x.
+  forall o x y, exact o -> wf_cons x -> wf_cons y -> sym_scope o x y ->
+  cons_eq New o x y = cons_eq New o y x.
 Proof. exact cons_sym_exact. Qed.
 Print Assumptions C05_sym_exact_construct.
 
@@ -290,3 +291,27 @@ Theorem C05_examples_bounds :
   cons_body_eq New C05.Refuted.o0 (with_bprop latb bnd "axis" (PStr "Y")) latb = Ok false.
 Proof. exact examples_bounds_nonvacuous. Qed.
 Print Assumptions C05_examples_bounds.
+
+(* ---- cross-class pass ---- *)
+
+(* Constructs of different classes: without ignore_type they are unequal; with ignore_type=True
+   the answer is exactly that of comparing self, within its own class, with the operand converted
+   to that class ([convert]: properties, data and the components the class of self has). *)
+Theorem C05_cross_class_semantics :
+  forall o x y,
+  cls_eqb (c_cls x) (c_cls y) = false -> p_ext (c_pd x) = false -> p_ext (c_pd y) = false ->
+  bounded (c_cls x) && bounded (c_cls y) = false ->
+  (o_itype o = false -> cons_eq New o x y = Some (Ok false)) /\
+  (o_itype o = true -> cons_eq New o x y = cons_eq New o x (convert (c_cls x) y) /\
+                       c_cls (convert (c_cls x) y) = c_cls x).
+Proof. exact cross_class_semantics. Qed.
+Print Assumptions C05_cross_class_semantics.
+
+(* Symmetry (C05_sym_exact_construct) carries the scope [sym_scope]: same class, or
+   ignore_type=False, or two coordinate-like classes.  Outside it the statement is false of the
+   faithful model (and of cfdm): the conversion is directional (open finding). *)
+Theorem C05_cross_class_asymmetry_refuted :
+  exists o x y, exact o /\ wf_cons x /\ wf_cons y /\
+                cons_eq New o x y = Some (Ok true) /\ cons_eq New o y x = Some (Ok false).
+Proof. exact cross_class_asymmetry_refuted. Qed.
+Print Assumptions C05_cross_class_asymmetry_refuted.
